@@ -5,6 +5,7 @@ from contracts import formulas as F
 from contracts import wrappers as W
 from contracts import fasta as FA
 from contracts import core as K
+from contracts import formulas as F_DEP
 ID = "C16"
 LEVEL = "other"
 TRUSTED = ["A1 real arithmetic", "A6 solvers",
@@ -19,12 +20,13 @@ EXPLANATION = ("Deductive: mix_values, D2O_sld, D2O_match and fasta.D2Omatch are
 
 
 def units(tier):
-    return ((([N.U_MIX_VALUES, N.U_D2O_SLD, N.U_D2O_MATCH, N.L_SUBSTITUTION_LINEAR, N.U_FASTA_MATCH, N.U_FASTA_D2OSLD, F.U_SUBSTITUTION] + N.U_D2O_SLDS) + FA.U_MOLECULE_INIT + W.U_FORMULA_REPLACE) + [K.L_ATOM_IDENTITY]) + F.U_FORMULA_OF_FORMULA + F.U_INIT
+    return ((([N.U_MIX_VALUES, N.U_D2O_SLD, N.U_D2O_MATCH, N.L_SUBSTITUTION_LINEAR, N.U_FASTA_MATCH, N.U_FASTA_D2OSLD, F.U_SUBSTITUTION] + N.U_D2O_SLDS) + FA.U_MOLECULE_INIT + W.U_FORMULA_REPLACE) + [K.L_ATOM_IDENTITY]) + F.U_FORMULA_OF_FORMULA + F.U_INIT + ([F_DEP.U_COUNT_ATOMS, F_DEP.U_ATOMS])
 
 
 def runner_tasks(tier):
     return [{"module": "c16", "task": "sample", "kind": "bounded", "clause": "direct substitution vs D2O_sld; fasta tables sweep"},
-            {"module": "stateful", "task": "C16", "name": "stateful", "kind": "bounded", "clause": "same letters under different prefixes; compound on a private table is substituted"}]
+            {"module": "stateful", "task": "C16", "name": "stateful", "kind": "bounded", "clause": "same letters under different prefixes; compound on a private table is substituted"},
+            {"module": "independence", "task": "observations", "name": "independence", "kind": "bounded", "arg": {"tags": ["C16"]}, "clause": "fixed observations give the same value as the first use of the library in a fresh interpreter, in a warmed-up interpreter (twice) and in reverse order, and have their documented value", "timeout": 900}]
 
 
 REPLAY = {'module': 'c16', 'task': 'replay'}
